@@ -319,14 +319,15 @@ def norm(v):
         return ("F", repr(v))
     if hasattr(v, "_uid"):
         return ("O", v._uid)
+    # records (dict literals, dataclass / NamedTuple instances) are unordered: fields sorted by name
     if isinstance(v, tuple) and hasattr(v, "_fields"):  # NamedTuple instance
-        return ("D",) + tuple((k, norm(x)) for k, x in zip(v._fields, v))
+        return ("D",) + tuple(sorted(((k, norm(x)) for k, x in zip(v._fields, v)), key=lambda kv: repr(kv[0])))
     if isinstance(v, tuple):
         return ("T",) + tuple(norm(x) for x in v)
     if isinstance(v, dict):
-        return ("D",) + tuple((k, norm(x)) for k, x in v.items())
+        return ("D",) + tuple(sorted(((k, norm(x)) for k, x in v.items()), key=lambda kv: repr(kv[0])))
     if dataclasses.is_dataclass(v) and not isinstance(v, type):
-        return ("D",) + tuple((f.name, norm(getattr(v, f.name))) for f in dataclasses.fields(v))
+        return ("D",) + tuple(sorted(((f.name, norm(getattr(v, f.name))) for f in dataclasses.fields(v)), key=lambda kv: repr(kv[0])))
     if isinstance(v, list):
         return ("L",) + tuple(norm(x) for x in v)
     if hasattr(v, "__iter__"):
